@@ -9,6 +9,7 @@ import (
 	sdk "github.com/cosmos/cosmos-sdk/types"
 
 	auctionsV2types "github.com/comdex-official/comdex/x/auctionsV2/types"
+	esmtypes "github.com/comdex-official/comdex/x/esm/types"
 	lendtypes "github.com/comdex-official/comdex/x/lend/types"
 	liquiditytypes "github.com/comdex-official/comdex/x/liquidity/types"
 	lockertypes "github.com/comdex-official/comdex/x/locker/types"
@@ -94,7 +95,16 @@ func (f *Fix) RandomPrefix(s *sim.Env, rng *sim.Rng, steps int) []string {
 		u := users[rng.Intn(2)]
 		var name string
 		var msg sdk.Msg
-		switch rng.Intn(20) {
+		switch rng.Intn(21) {
+		case 20:
+			// breaker switched on and off again by the admin: leaves a kill-switch record with BreakerEnable = false
+			app := []uint64{f.AppHarbor, f.AppCommodo}[rng.Intn(2)]
+			r1 := s.Deliver(esmtypes.NewMsgKillRequest(f.Admin, esmtypes.KillSwitchParams{AppId: app, BreakerEnable: true}))
+			r2 := s.Deliver(esmtypes.NewMsgKillRequest(f.Admin, esmtypes.KillSwitchParams{AppId: app, BreakerEnable: false}))
+			if r1.OK && r2.OK {
+				done = append(done, fmt.Sprintf("breaker on/off app %d", app))
+			}
+			continue
 		case 0, 1:
 			dt := []time.Duration{6 * time.Second, time.Hour, 24 * time.Hour, 7 * 24 * time.Hour}[rng.Intn(4)]
 			if br := s.NextBlock(dt); br.Panic {
